@@ -227,7 +227,10 @@ impl C15 {
             if supply1 == supply2 {
                 let e2 = earned(&w, &[OBSERVED, OBSERVED_2], claimed);
                 out.count("c15.twins_split_compared");
-                if e2 != e1 {
+                // the two accounts settle separately: sub-unit rounding once per settlement and update of either
+                let n_round = (base_ops.iter().filter(|o| involves(o, OBSERVED) || is_update(o)).count() as u128 + 1) * 2;
+                let d = if e2 > e1 { e2 - e1 } else { e1 - e2 };
+                if d >= Uint512::from(n_round) * Uint512::from(e18()) {
                     out.violation(P, "independent_of_account_split", format!("{} earned {} e-18 with one account but {} e-18 with the same position split over two accounts", OBSERVED, e1, e2));
                 }
             } else {
@@ -293,7 +296,10 @@ impl Monitor for C15 {
                     let term = Uint512::from(*bal) * Uint512::from(claimed) * e18() * e18() / total;
                     *self.expected.entry(a.clone()).or_default() += term;
                     // truncated index increment: less than balance * 1e-18 coin
-                    *self.eps.entry(a.clone()).or_default() += Uint512::from(*bal) * e18();
+                    // "within sub-unit rounding": less than one base unit per index update (the shipped contract loses
+                    // balance x 1e-18, any rounding below one base unit is within the statement)
+                    let _ = bal;
+                    *self.eps.entry(a.clone()).or_default() += e18() * e18();
                 }
                 out.count("c15.updates_with_holders");
                 if n_holders >= 3 {
@@ -316,12 +322,15 @@ impl Monitor for C15 {
             for (a, h1) in post.holders.iter() {
                 let b0 = pre.holders.get(a).map(|h| h.balance).unwrap_or(0);
                 if b0 != h1.balance {
-                    *self.eps.entry(a.clone()).or_default() += e18();
+                    *self.eps.entry(a.clone()).or_default() += e18() * e18();
                     // accrued rewards stay with the holder who earned them
                     let a0 = accrued_of(pre, a);
                     let a1 = accrued_of(post, a);
                     let moved = reward_updates_in(c) == 0;
-                    if moved && a0 != a1 {
+                    // "moves no past rewards": nothing of a whole base unit's size comes or goes (sub-unit rounding
+                    // at a settlement is within the statement)
+                    let d = if a0 > a1 { a0 - a1 } else { a1 - a0 };
+                    if moved && d >= Uint512::from(e18()) {
                         out.violation(P, "past_rewards_stay", format!("{}: balance {} -> {} changed {}'s accrued rewards {} -> {} e-18", c.op.kind(), b0, h1.balance, a, a0, a1));
                     }
                     out.count("c15.balance_changes_checked");
